@@ -6,6 +6,8 @@ VERIF = os.path.dirname(os.path.dirname(os.path.abspath(__file__)))
 allp = ["C%02d" % i for i in range(1, 21)]
 for d in sys.argv[1:]:
     for f in sorted(glob.glob(os.path.join(d, "*.diff"))):
+        if os.environ.get("TRY_PREFIXES") and not os.path.basename(f).startswith(tuple(os.environ["TRY_PREFIXES"].split(","))):
+            continue
         p = subprocess.run([sys.executable, os.path.join(VERIF, "selftest", "mutate.py"), "--patch", f] + allp, stdout=subprocess.PIPE, stderr=subprocess.STDOUT)
         out = p.stdout.decode()
         fired = [l for l in out.splitlines() if "FIRED" in l or l.startswith("              ")]
